@@ -16,6 +16,7 @@ macro_rules! for_props {
         for_props!(@go $id, $p, $body, [
             props::c01::C01,
             props::c02::C02,
+            props::c04::C04,
             props::c11::C11,
             props::c06::C06,
             props::c08::C08,
